@@ -87,6 +87,9 @@ func (i *interpreter) freeze(roots []value) {
 }
 
 func (i *interpreter) sharedWrite(what string, fr *frame) {
+	if i.lockDepth > 0 {
+		return
+	}
 	where := ""
 	if fr != nil && fr.fn != nil {
 		where = strings.TrimPrefix(fr.fn.String(), "github.com/GuanceCloud/platypus/")
